@@ -6,7 +6,7 @@
 //!           "total": bytes, "sizes":[call sizes, cyclic], "m":"copy"|"borrow"|"read"|"anchored",
 //!           "drain":"bytes"|"slices"|"read", "seed": n, "big": bytes (sreader: size of the skipped record)}
 use crate::util::*;
-use hcobs::{Decoder, Encoder, StreamReader};
+use hcobs::{Chunk, Decoder, Encoder, StreamChunker, StreamReader};
 use owning_iovec::{ByteArena, ConsumingIovec};
 use serde_json::json;
 use std::num::NonZeroUsize;
@@ -58,6 +58,11 @@ fn drain_all(c: &mut ConsumingIovec<'_>, how: &str, keep: bool) -> Vec<u8> {
     loop {
         let sp = c.stable_prefix();
         if sp.is_empty() {
+            // "consume whatever is there" when nothing is: a legitimate call
+            if how == "slices" {
+                let k = c.consume(0);
+                assert_eq!(k, 0, "harness: consume(0)");
+            }
             break;
         }
         let n: usize = sp.iter().map(|s| s.len()).sum();
@@ -273,6 +278,52 @@ pub fn drive_footprint(ops: &str, trace: &str) {
                     for h in hs {
                         h.join().expect("worker");
                     }
+                    let _ = (streamed, i, off);
+                }
+                "chunkdec" => {
+                    // a hand-rolled record reader: StreamChunker::pump -> Decoder::decode_anchored, finish at every
+                    // sentinel, look at the record, drain it with consume(number of stable slices), and keep the iovec
+                    // (and its arena) for the next record through Decoder::new_from_iovec
+                    let big = geti(&run.cfg, "big") as usize;
+                    let mut log: Vec<u8> = Vec::with_capacity(big + 16);
+                    let unit: &[u8] = match run.cfg["log"].as_str().unwrap_or("empties") {
+                        "empties" => &[0, 0xFE, 0xFD],
+                        "junk" => &[0xFF, 7, 7, 7, 0xFE, 0xFD],
+                        _ => &[3, b'a', b'b', b'c', 0xFE, 0xFD, 0, 0xFE, 0xFD],
+                    };
+                    while log.len() < big {
+                        log.extend_from_slice(unit);
+                    }
+                    let mut rd = &log[..];
+                    let mut arena = ByteArena::new();
+                    let mut ch = StreamChunker::default();
+                    let mut dec = Decoder::new();
+                    let mut bad = false;
+                    let (mut nrec, mut peak) = (0usize, 0usize);
+                    loop {
+                        match ch.pump(&mut arena, &mut rd, sizes[0].max(3)).expect("pump") {
+                            Chunk::Eof => break,
+                            Chunk::Data((_, slice)) => {
+                                if !bad && dec.decode_anchored(slice).is_err() {
+                                    bad = true;
+                                }
+                            }
+                            Chunk::Sentinel(_) => {
+                                let mut iov = if bad { dec.take_iovec() } else { dec.finish().unwrap_or_default() };
+                                nrec += 1;
+                                bad = false;
+                                peak = peak.max(ByteArena::num_live_bytes());
+                                let mut c = iov.consumer();
+                                let n = c.stable_prefix().len();
+                                let k = c.consume(n);
+                                assert_eq!(k, n, "harness: consume");
+                                dec = Decoder::new_from_iovec(iov);
+                            }
+                        }
+                    }
+                    out.emit(&json!({"run":run.run,"ev":"sample","who":"sreader","streamed":log.len(),"live":ByteArena::num_live_bytes(),
+                                     "peak":peak,"total":0,"stable":0,"pending":0,"records":nrec}));
+                    drop(dec);
                     let _ = (streamed, i, off);
                 }
                 "sreader" => {
